@@ -1685,7 +1685,10 @@ fn c14_enum(chk: &StepCheck, cx: &mut Ctx) {
     }
     // (every judged step snapshots the whole stack, so the cost is quadratic in the depth: the
     // fully judged nesting stays moderate, and a much deeper stack is built unjudged below)
-    let depth: u32 = if cx.quick() { 4200 } else { 6000 };
+    // Kept small on purpose (600 / 1500 levels): LIFO order level by level. Caps and narrow counters
+    // anywhere up to 70 000 are the business of the "very deep stack" case below, whose first judged
+    // push already fails if anything was dropped on the way.
+    let depth: u32 = if cx.quick() { 600 } else { 1500 };
     for (i, via_parser) in [false, true].iter().enumerate() {
         if !cx.mine(i as u64) || !cx.begin_group(&format!("deep nesting {} parser={}", depth, via_parser)) {
             continue;
